@@ -1,6 +1,6 @@
 (* C04 - best-so-far never worsens; counters and monitors are faithful.  Statements only. *)
 From Coq Require Import List ZArith QArith Bool.
-From MV Require Import Common.Num Common.Order Core.Machine Core.Machine_Proofs Core.DE Core.DE_Proofs Core.NM Core.NM_Proofs Core.Powell Core.Powell_Proofs.
+From MV Require Import Common.Num Common.Order Core.Machine Core.Machine_Proofs Core.DE Core.DE_Proofs Core.NM Core.NM_Proofs Core.NM_History Core.Powell Core.Powell_Proofs.
 Import ListNotations.
 Open Scope Z_scope.
 
@@ -76,6 +76,24 @@ Proof.
   exact (proj2 (proj2 (nm_reported_best N inf Ht Hi cons0 Hid ops sc Hc HP Hs Hn))).
 Qed.
 Print Assumptions C04_nm_last_record_is_best.
+
+(* Nelder-Mead at run level: after any clean sequence of operations - also one that replaces constraints, penalty, ranges, limits or
+   termination in the middle of the run - the best-energy history is non-increasing and its last entry is the reported best energy; for
+   every cost, candidate stream, argsort answer and simplex size *)
+Theorem C04_nm_history :
+  forall (N : Num) (inf : T N), StrictWeak (T N) (ltb N) ->
+  forall (ops : list (op N (nm_in N))) (sc : sys N * nm N),
+  Forall (clean_op N _ (nm_ok_in N) false false) ops -> H_nm N inf (fst sc) (snd sc) ->
+  let r := run N inf _ _ (nm_algo N inf) sc ops in
+  desc N (map snd (stepmon N (fst r))) /\
+  (stepmon N (fst r) <> [] -> snd (last (stepmon N (fst r)) ([], inf)) = snd (nm_best N inf (snd r))).
+Proof.
+  intros N inf Ho ops sc Hc H. exact (nm_history_ok N inf Ho ops sc Hc H).
+Qed.
+Print Assumptions C04_nm_history.
+
+Example C04_nm_history_nonvacuous : forall (N : Num) (inf : T N) t ndim, H_nm N inf (init_sys N inf t) (nm_init N inf ndim).
+Proof. intros. apply nm_history_init. reflexivity. Qed.
 
 (* Powell: a generation's record reaches the step monitor one phase late and is completed by Finalize; nevertheless the LAST entry of
    the solver's energy history is the reported best energy after every operation of a clean run (any cost, constraints, line searches) *)
